@@ -301,3 +301,53 @@ def run(ctx, F, kinds=("bdd", "bcdd", "zbdd", "mtbdd", "tdd"), rule="E-TABLE.red
         if ctx.anchor(rule, "TDDRules::reduce", fid):
             n += check_reduce(ctx, F, rule, fid, tables.TDD, 3, "rules")
     return n
+
+
+# ---- BCDD terminal cases of and / xor -------------------------------------------------------------------------------
+class BCDDTermDomain(ReduceDomain):
+    def terminal_edge(self, tv):
+        return Edge(("T", tv), self.default_tag())
+
+    def node_of(self, edge):
+        if isinstance(edge, Edge) and edge.node[0] == "N":
+            return Enum(tables.NODE_INNER, [("nodeobj", edge.node[1])])
+        return super().node_of(edge)
+
+
+def check_bcdd_terminal_tables(ctx, F, rule="E-TABLE.bcdd"):
+    root = "oxidd_rules_bdd::complement_edge::"
+    U = universe(BCDD_KIND)
+    n = 0
+    for fn, op in (("terminal_and", lambda a, b: a & b), ("terminal_xor", lambda a, b: a ^ b)):
+        fid = root + fn
+        if not ctx.anchor(rule, fid, fid in F.hir):
+            continue
+        fails = []
+        for f, g in itertools.product(U, U):
+            def mk(oracle):
+                d = BCDDTermDomain(F, BCDD_KIND)
+                d.helpers = {root + "get_terminal", root + "is_false", root + "not_owned", root + "not"}
+                return Interp(F, d, oracle)
+            for trace, (status, val) in enumerate_runs(mk, lambda it: it.call_fn(fid, [Opaque("manager"), f, g])):
+                n += 1
+                sit = "%s(%s, %s)" % (fn, label(f), label(g))
+                if status != "ok":
+                    fails.append("%s: %s %s" % (sit, status, val))
+                    continue
+                if isinstance(val, Enum) and val.short == "Nodes":
+                    if not (f.node[0] == "N" and g.node[0] == "N" and f.node != g.node):
+                        fails.append("%s: defers to the recursion although an operand is terminal or both are the same node" % sit)
+                    continue
+                if not (isinstance(val, Enum) and val.short == "Done" and isinstance(val.args[0], Edge)):
+                    fails.append("%s: result %r" % (sit, val))
+                    continue
+                r = val.args[0]
+                for x, y in itertools.product((0, 1), repeat=2):
+                    valn = {"x": x, "y": y, "v": 0}
+                    if den(BCDD_KIND, r, valn) != op(den(BCDD_KIND, f, valn), den(BCDD_KIND, g, valn)):
+                        fails.append("%s returns %s, which differs from the connective for x=%d y=%d" % (sit, label(r), x, y))
+                        break
+        ctx.ob(rule, "%s:%s" % (rule, fn), not fails,
+               ("%s (%s): %d abstract situation(s) wrong; first: %s" % (fid, F.where(fid), len(fails), " || ".join(fails[:3])))
+               if fails else "%s agrees with its connective on all 36 operand pairs" % fn)
+    return n
